@@ -293,7 +293,7 @@ func runGrowth(thorough bool, res chan<- growthResult) {
 
 func round2(f float64) float64 { return float64(int(f*100+0.5)) / 100 }
 
-func replayGrowth(name string, n int) {
+func replayGrowth(name string, n int) (reproduced bool) {
 	parts := strings.SplitN(name, "@", 2)
 	variant := "cmdsA"
 	if len(parts) == 2 {
@@ -315,9 +315,21 @@ func replayGrowth(name string, n int) {
 			fmt.Printf("  n=%d input=%d bytes: outcome=%s alloc=%d mallocs=%d reads=%d deadline_calls=%d cpu=%.3fs max_depth_delivered=%d\n", pt.N, pt.Bytes, pt.Outcome, pt.Alloc, pt.Mallocs, pt.Reads, pt.Deadline, pt.CPU, pt.MaxDepth)
 			for _, f := range reps[k] {
 				fmt.Printf("    => finding key=%s: %s\n", f.Key, f.What)
+				reproduced = true
+			}
+			if k > 0 && pts[k-1].Outcome == "ok" && pt.Outcome == "ok" {
+				ra, rm := ratio(float64(pts[k-1].Alloc), float64(pt.Alloc)), ratio(float64(pts[k-1].Mallocs), float64(pt.Mallocs))
+				fmt.Printf("    growth for a doubled input: allocated bytes x%.2f, allocations x%.2f, cpu x%.2f (limit x%.1f on the first two)\n", ra, rm, ratio(pts[k-1].CPU, pt.CPU), allocRatioMax)
+				if ra > allocRatioMax || rm > allocRatioMax {
+					reproduced = true
+				}
 			}
 		}
 		if death != nil {
+			kind, _, _ := classifyDeath(death.stderr, death.timedOut)
+			if kind != "budget" && kind != "watchdog" {
+				reproduced = true
+			}
 			lines := strings.Split(death.stderr, "\n")
 			for i := 0; i < len(lines) && i < 16; i++ {
 				fmt.Println("     | " + lines[i])
@@ -326,4 +338,5 @@ func replayGrowth(name string, n int) {
 		return
 	}
 	run.EngineError("unknown growth family %q", name)
+	return
 }
